@@ -469,7 +469,7 @@ pub fn extract_field_option(tag: &str) -> Option<char> {
     // Format is :NNO: where NN is field number and O is optional letter
     if tag.len() >= 5 && tag.starts_with(':') && tag.ends_with(':') {
         let inner = &tag[1..tag.len() - 1];
-        if inner.len() == 3 && inner[0..2].chars().all(|c| c.is_numeric()) {
+        if inner.len() == 3 && inner.is_ascii() && inner[0..2].chars().all(|c| c.is_numeric()) {
             return inner.chars().nth(2);
         }
     }
